@@ -10,7 +10,7 @@ def sh(cmd, cwd=None, timeout=3600):
     p = subprocess.run(cmd, cwd=cwd, shell=isinstance(cmd, str), stdout=subprocess.PIPE, stderr=subprocess.STDOUT, timeout=timeout)
     return p.returncode, p.stdout.decode(errors="replace")
 names = sys.argv[1:] or sorted(d for d in os.listdir(V + "/seeded") if os.path.isdir(V + "/seeded/" + d))
-resp = V + "/seeded/RESULTS.json"
+resp = os.environ.get("SEED_MATRIX_OUT") or (V + "/seeded/RESULTS.json")
 res = json.load(open(resp)) if os.path.exists(resp) else {}
 for n in names:
     d = V + "/seeded/" + n
